@@ -197,7 +197,7 @@ Theorem C02_numeric_fields :
        let kvs := key_value_decode 44 (fst (split_first 59 body)) in
        (id = 0 \/ exists v, In ([105], v) kvs /\ number_decode v = Some id) /\
        (pl = None \/ exists v n, In ([112], v) kvs /\ number_decode v = Some n /\ pl = Some n)) /\
-  (forall data idx r, dec_osc data = Ok r -> (r = RSome (PColor 2 idx) \/ r = RExt (PColor 2 idx)) ->
+  (forall data idx c r, dec_osc data = Ok r -> (r = RSome (PColor 2 idx c) \/ r = RExt (PColor 2 idx c)) ->
      exists body a0 a1 rest, split_on 59 body = a0 :: a1 :: rest /\ number_decode a0 = Some 4 /\ number_decode a1 = Some idx).
 Proof.
   exact (conj dec_mouse_spec (conj dec_termsize_spec (conj dec_keylevel_spec (conj dec_key_spec
@@ -278,6 +278,15 @@ Example C02_fixed_witnesses :
   number_decode (repeat 57 20) = Some usize_max /\
   dec_utf8 [237; 160; 128] = Ok RNone /\ dec_utf8 [244; 144; 128; 128] = Ok RNone /\
   dec_utf8 [240; 159; 144; 177] = Ok (RSome (PChar 128049)).
+Proof. vm_compute. repeat split; reflexivity. Qed.
+
+(* overlong encodings (named in the property's quantifier): the automaton checks the SHAPE of a
+   sequence only, so `C0 9B` is decoded like the two-byte form it has, to U+001B.  The property asks
+   that every produced character be a scalar value (it is, by C02_chars_scalar), not that overlong
+   forms be rejected; the strict validator (`utf8_valid`, std's from_utf8) is used for pasted text. *)
+Example C02_overlong_example :
+  dec_utf8 [192; 155] = Ok (RSome (PChar 27)) /\ scalar_ok 27 = true /\ utf8_valid [192; 155] = false /\
+  dec_utf8 [224; 128; 128] = Ok (RSome (PChar 0)).
 Proof. vm_compute. repeat split; reflexivity. Qed.
 
 Example C02_stream_example :
